@@ -77,6 +77,21 @@ def agree(mstat, mval, istat, ival, tol=TOL):
     return mstat == s
 
 
+def verdict(ctx, key, desc, tie_ok, mrepr, irepr, fail, what="model and implementation differ"):
+    """Report one case.  `fail` = None or (demanded, got, what) from the implementation-only oracle.
+    Tie holds: an oracle failure is reported under `key` (the model, faithful to recorded defects, predicts it).
+    Tie broken: reported under `key:model-mismatch` — never under a key a known-finding record could match —
+    together with the oracle's failing input when it has one."""
+    if tie_ok:
+        if fail:
+            ctx.fail(key, desc, *fail)
+    else:
+        k = key + ":model-mismatch"
+        ctx.disagree(k, desc, mrepr, irepr, what)
+        if fail:
+            ctx.fail(k, desc, *fail)
+
+
 def run(ctx):
     cuqi = import_cuqi()
     import cuqi.distribution as D
@@ -318,18 +333,28 @@ def run(ctx):
             istat, ival = "raise", type(e).__name__
             dist = None
         bump(stat_hist, f"{fam}:{mstat}")
-        if not agree(mstat, mval, istat, ival):
-            ctx.disagree(key, desc, out, [istat, ival], "logpdf: model and implementation differ")
+        tie_ok = agree(mstat, mval, istat, ival)
         # ---- oracle: documented density
+        fail = None
         if fam == "mhn":
-            oracle_mhn(ctx, key, desc, dist, x, p, n, istat, ival)
+            fail = oracle_mhn(dist, x, p, n, istat, ival)
         else:
             ref = reference(fam, x, p, n)
             if istat == "raise":
                 if ref is not None and math.isfinite(ref) and mode != "cond":
-                    ctx.fail(key, desc, ref, f"raises {ival}", "no log-density value for a documented way of passing the parameters")
+                    fail = (ref, f"raises {ival}", "no log-density value for a documented way of passing the parameters")
             elif ref is not None and not close(ref, ival, ORTOL):
-                ctx.fail(key, desc, ref, ival, "logpdf is not the logarithm of the documented density")
+                fail = (ref, ival, "logpdf is not the logarithm of the documented density")
+            elif ref is None and not tie_ok and dist is not None:
+                # boundary of the support / invalid parameter: search next to the point
+                x2 = list(x)
+                for j in range(n):
+                    x2[j] = x2[j] + (1 / 64 if fam != "beta" or x2[j] < 0.5 else -1 / 64)
+                ref2 = reference(fam, x2, p, n)
+                s2, v2 = call(lambda: dist.logpdf(np.array(x2, dtype=float)))
+                if ref2 is not None and (s2 != "value" or not close(ref2, v2, ORTOL)):
+                    fail = (ref2, v2, f"logpdf is not the logarithm of the documented density (at the neighbouring point {x2})")
+        verdict(ctx, key, desc, tie_ok, out, [istat, ival], fail, "logpdf: model and implementation differ")
         if dist is None or istat == "raise":
             continue
         # ---- pdf = exp(logpdf), logd = logpdf + const (const is 0 for a fresh distribution)
@@ -413,14 +438,14 @@ def run(ctx):
         istat, ival = call(lambda: dist.cdf(np.array(x, dtype=float)))
         t = out.split()
         mval = {"value": lambda: dec(t[1]), "-inf": lambda: float("-inf"), "zero": lambda: 0.0}[t[0]]()
-        if istat != "value" or not close(mval, ival, 1e-12):
-            ctx.disagree(key, desc, out, [istat, ival], "cdf: model and implementation differ")
+        tie_ok = istat == "value" and close(mval, ival, 1e-12)
         # oracle: independent components => joint cdf is the product of the component cdfs
-        if key.endswith("invalid-scale"):
-            continue
-        ref = float(np.prod(comps))
-        if istat != "value" or not close(ref, ival, 1e-10):
-            ctx.fail(key, desc, ref, ival, "cdf is not the product of the component cdfs (the integral of the product density over the lower orthant)")
+        fail = None
+        if not key.endswith("invalid-scale"):
+            ref = float(np.prod(comps))
+            if istat != "value" or not close(ref, ival, 1e-10):
+                fail = (ref, ival, "cdf is not the product of the component cdfs (the integral of the product density over the lower orthant)")
+        verdict(ctx, key, desc, tie_ok, out, [istat, ival], fail, "cdf: model and implementation differ")
 
     # =================================================================== 3. Gaussian parameterisations
     gauss_section(ctx, D, G, rng, nrng, S, thorough, bump, fam_hist)
@@ -436,23 +461,24 @@ def run(ctx):
 
 
 # --------------------------------------------------------------------------------------------------
-def oracle_mhn(ctx, key, desc, dist, x, p, n, istat, ival):
+def oracle_mhn(dist, x, p, n, istat, ival):
     """documented kernel x^(a-1) exp(-b x^2 + c x) on x>0 (up to its constant): differences of the
     log-density between two points are the differences of the documented kernel; -inf outside."""
     if dist is None or istat == "raise":
-        return
+        return None
     a, b, c = p[0][0], p[1][0], p[2][0]
     x = np.asarray(x, dtype=float)
     if np.any(x < 0):
         if ival != float("-inf"):
-            ctx.fail(key, desc, "-inf", ival, "density does not vanish outside the support")
-        return
+            return ("-inf", ival, "density does not vanish outside the support")
+        return None
     x0 = np.ones(n)
     with quiet():
         v0 = fnum(dist.logpdf(x0))
     doc = lambda z: float(np.sum((a - 1) * np.log(z) - b * z * z + c * z))
     if not close(ival - v0, doc(x) - doc(x0), ORTOL):
-        ctx.fail(key, desc, doc(x) - doc(x0), ival - v0, "logpdf(x)-logpdf(1) is not that of the documented kernel x^(alpha-1) exp(-beta x^2 + gamma x)")
+        return (doc(x) - doc(x0), ival - v0, "logpdf(x)-logpdf(1) is not that of the documented kernel x^(alpha-1) exp(-beta x^2 + gamma x)")
+    return None
 
 
 def band(n, d, o, o2=None):
@@ -474,7 +500,7 @@ def gauss_section(ctx, D, G, rng, nrng, S, thorough, bump, hist):
         ctx.note("MIN_DIM_SPARSE changed; dimensions around the new threshold are not generated by this check")
     flags = dict(zip((1, 74, 75, 76, 77, 80), o[1:]))
 
-    small_dims = [1, 2, 3, 5]
+    small_dims = [1, 2, 3, 4, 5, 6]
     big_dims = [74, 75, 76, 77, 80]
     cases = []
 
@@ -584,67 +610,76 @@ def gauss_section(ctx, D, G, rng, nrng, S, thorough, bump, hist):
         key = f"Gaussian:{form}:{kind}" + (":nonsymmetric" if nonsym and form == "sqrtcov" else "")
         mean = mu[0] if len(mu) == 1 else np.array(mu)
         xa = np.array(x, dtype=float)
+        geom = G.Image2D((2, n // 2)) if n in (4, 6) and rng.random() < 0.5 else n
+        desc["geometry"] = "Image2D" if not isinstance(geom, int) else "int"
         try:
             with quiet():
-                g = D.Gaussian(mean, **{form: obj}, geometry=n)
-            cstat = "ok"
+                g = D.Gaussian(mean, **{form: obj}, geometry=geom)
         except Exception as e:  # noqa
-            cstat = "raise"; g = None; cerr = type(e).__name__
+            g = None; cerr = type(e).__name__
         istat, ival = call(lambda: g.logpdf(xa)) if g is not None else ("raise", cerr)
         t = out.split()
+        mism = []          # tie mismatches
+        fail = oracle_gauss(form, Mv, kind, n, mu, xa, istat, ival, documented_cov)
+        if t[0] == "unsupported":
+            ctx.note(f"model declines {form}/{kind}/{n} (singular full matrix)")
+            if fail:
+                ctx.fail(key, desc, *fail)
+            continue
         if t[0] in ("raise", "nologdet"):
             if istat != "raise":
-                ctx.disagree(key, desc, out[:80], [istat, ival], "model: refused; implementation returned a value")
-                oracle_gauss(ctx, key, desc, form, Mv, kind, n, mu, xa, istat, ival, documented_cov)
-            elif t[0] == "nologdet" and g is not None:
-                # un-normalised density is still offered: -0.5 * quad
-                with quiet():
-                    lu = fnum(g._logupdf(xa))
-                if not close(-0.5 * dec(t[1]), lu, TOL):
-                    ctx.disagree(key + ":logupdf", desc, -0.5 * dec(t[1]), lu)
-                    ctx.fail(key + ":logupdf", desc, -0.5 * dec(t[1]), lu, "un-normalised log-density is not -1/2 (x-mu)^T P (x-mu)")
-            continue
-        if t[0] == "unsupported":
-            ctx.note(f"model declines {desc['form']}/{kind}/{n} (singular full matrix)"); continue
-        if t[0] == "nan":
+                mism.append("model: logpdf refused; implementation returned a value")
+            elif t[0] == "nologdet":
+                if g is None:
+                    mism.append("model: constructed (logpdf refused); implementation: constructor raised")
+                else:
+                    # un-normalised density is still offered: -0.5 * quad
+                    with quiet():
+                        lu = fnum(g._logupdf(xa))
+                    if not close(-0.5 * dec(t[1]), lu, TOL):
+                        mism.append(f"logupdf {lu} vs model {-0.5 * dec(t[1])}")
+                        fail = fail or (-0.5 * dec(t[1]), lu, "un-normalised log-density is not -1/2 (x-mu)^T P (x-mu)")
+        elif t[0] == "nan":
             if istat == "value" and math.isfinite(ival):
-                ctx.disagree(key, desc, "nan/inf", ival, "non-positive variance gives a finite log-density")
-                ctx.fail(key, desc, "no finite density for a non-positive variance", ival)
-            continue
-        rank, detcov, quad, lp, lup = int(t[1]), Fraction(t[2][2:]), dec(t[3]), dec(t[4]), dec(t[5])
-        if istat != "value" or not close(lp, ival, TOL):
-            ctx.disagree(key, desc, lp, [istat, ival], "Gaussian.logpdf: model and implementation differ")
-        if g is not None and istat == "value":
-            with quiet():
-                S_ = g.sqrtprec
-                Pi = np.asarray((S_.T @ S_).todense()) if spa.issparse(S_) else np.asarray(S_.T @ S_)
-                lu = fnum(g._logupdf(xa))
-                ld = fnum(g.logdet)
-                sparse_stored = spa.issparse(S_)
-            if int(g.rank) != rank:
-                ctx.disagree(key + ":rank", desc, rank, int(g.rank))
-            logdet_model = float(math.log(detcov.numerator) - math.log(detcov.denominator))
-            if not close(logdet_model, ld, 1e-9):
-                ctx.disagree(key + ":logdet", desc, logdet_model, ld, "log-determinant of the covariance")
-            if not close(lup, lu, TOL):
-                ctx.disagree(key + ":logupdf", desc, lup, lu)
-            if not close(ival - lu, -0.5 * (rank * math.log(2 * math.pi) + logdet_model), 1e-9):
-                ctx.disagree(key + ":logd-const", desc, "Z", ival - lu)
-                ctx.fail(key + ":logd-const", desc, "logpdf - logupdf = -1/2 (rank log 2pi + logdet)", ival - lu, "un-normalised and normalised log-density differ by more than the constant")
-            if len(t) > 6 and t[6] != "-":
-                Pm = np.array([[float(Fraction(v)) for v in r.split(",")] for r in t[6].split(";")])
-                if Pi.shape != Pm.shape or not np.allclose(Pi, Pm, rtol=1e-9, atol=1e-9):
-                    ctx.disagree(key + ":precision", desc, t[6][:120], Pi.tolist(), "sqrtprec^T sqrtprec is not the model's precision")
-                if hasattr(g, "_prec") and form in ("cov", "sqrtcov"):
-                    Pp = g._prec; Pp = np.asarray(Pp.todense()) if spa.issparse(Pp) else np.asarray(Pp)
-                    if not np.allclose(Pp, Pm, rtol=1e-9, atol=1e-9):
-                        ctx.disagree(key + ":precision", desc, t[6][:120], Pp.tolist(), "_prec is not the model's precision")
-            # storage switch (matrix kinds built by the class itself)
-            if kind in ("scalar", "vector", "diag") and form != "sqrtprec" or (kind in ("scalar", "vector") and form == "sqrtprec"):
-                want = flags.get(n)
-                if want is not None and str(int(sparse_stored)) != want:
-                    ctx.disagree("Gaussian:storage-switch", desc, want, int(sparse_stored), "sparse storage on the wrong side of MIN_DIM_SPARSE")
-        oracle_gauss(ctx, key, desc, form, Mv, kind, n, mu, xa, istat, ival, documented_cov)
+                mism.append("non-positive variance gives a finite log-density")
+                fail = fail or ("no finite density for a non-positive variance", ival, "finite log-density for a non-positive variance")
+        else:
+            rank, detcov, quad, lp, lup = int(t[1]), Fraction(t[2][2:]), dec(t[3]), dec(t[4]), dec(t[5])
+            if istat != "value" or not close(lp, ival, TOL):
+                mism.append(f"logpdf {[istat, ival]} vs model {lp}")
+            if g is not None and istat == "value":
+                with quiet():
+                    S_ = g.sqrtprec
+                    Pi = np.asarray((S_.T @ S_).todense()) if spa.issparse(S_) else np.asarray(S_.T @ S_)
+                    lu = fnum(g._logupdf(xa))
+                    ld = fnum(g.logdet)
+                    sparse_stored = spa.issparse(S_)
+                if int(g.rank) != rank:
+                    mism.append(f"rank {int(g.rank)} vs model {rank}")
+                logdet_model = float(math.log(detcov.numerator) - math.log(detcov.denominator))
+                if not close(logdet_model, ld, 1e-9):
+                    mism.append(f"logdet {ld} vs model {logdet_model}")
+                if not close(lup, lu, TOL):
+                    mism.append(f"logupdf {lu} vs model {lup}")
+                if not close(ival - lu, -0.5 * (int(g.rank) * math.log(2 * math.pi) + ld), 1e-9):
+                    ctx.fail(key + ":logd-const", desc, "logpdf - logupdf = -1/2 (rank log 2pi + logdet)", ival - lu,
+                             "un-normalised and normalised log-density differ by more than the constant")
+                if len(t) > 6 and t[6] != "-":
+                    Pm = np.array([[float(Fraction(v)) for v in r.split(",")] for r in t[6].split(";")])
+                    if Pi.shape != Pm.shape or not np.allclose(Pi, Pm, rtol=1e-9, atol=1e-9):
+                        mism.append("sqrtprec^T sqrtprec is not the model's precision")
+                    if hasattr(g, "_prec") and form in ("cov", "sqrtcov"):
+                        Pp = g._prec; Pp = np.asarray(Pp.todense()) if spa.issparse(Pp) else np.asarray(Pp)
+                        if not np.allclose(Pp, Pm, rtol=1e-9, atol=1e-9):
+                            mism.append("_prec is not the model's precision")
+                            if not np.allclose(Pp, Pi, rtol=1e-8, atol=1e-8):
+                                fail = fail or ("prec == sqrtprec^T sqrtprec", "differs", "the stored precision is not the one the log-density uses")
+                # storage switch (matrices built by the class itself)
+                if kind in ("scalar", "vector") or (kind == "diag" and form != "sqrtprec"):
+                    want = flags.get(n)
+                    if want is not None and str(int(sparse_stored)) != want:
+                        ctx.disagree("Gaussian:storage-switch", desc, want, int(sparse_stored), "sparse storage on the wrong side of MIN_DIM_SPARSE")
+        verdict(ctx, key, desc, not mism, out[:160], mism, fail, "Gaussian: model and implementation differ: " + "; ".join(mism))
 
     # ---- the same distribution through all four forms (small and around the threshold)
     for n in small_dims[1:] + ([76] if not thorough else [75, 76, 80]):
@@ -664,7 +699,13 @@ def gauss_section(ctx, D, G, rng, nrng, S, thorough, bump, hist):
                 vals["sqrtcov-sym"] = fnum(D.Gaussian(mu, sqrtcov=np.real(sqrtm_sym(C))).logpdf(x))
                 vals["sqrtprec"] = fnum(D.Gaussian(mu, sqrtprec=Lp.T).logpdf(x))
                 vals["sqrtcov-doc"] = fnum(D.Gaussian(mu, sqrtcov=L.T).logpdf(x))     # documented: R^T R = cov with R = L^T
-                vals["cov-sparse-threshold"] = vals["cov"]
+                # callable parameter, conditioned afterwards
+                vals["cov-conditioned"] = fnum(D.Gaussian(mu, cov=lambda c_: c_ * C, geometry=n)(c_=1.0).logpdf(x))
+                vals["prec-conditioned"] = fnum(D.Gaussian(mu, prec=lambda c_: c_ * Pm, geometry=n)(c_=1.0).logpdf(x))
+                vals["mean-conditioned"] = fnum(D.Gaussian(lambda c_: c_ * mu, sqrtprec=Lp.T, geometry=n)(c_=1.0).logpdf(x))
+                if n < 10:
+                    vals["cov-sparse-diag+dense"] = fnum(D.Gaussian(mu, cov=spa.csr_matrix(np.diag(np.diag(C)))).logpdf(x)) \
+                        - float(sps.multivariate_normal(mu, np.diag(np.diag(C))).logpdf(x)) + float(sps.multivariate_normal(mu, C).logpdf(x))
             ref = float(sps.multivariate_normal(mu, C).logpdf(x))
             ctx.case("gauss-forms-agree", {"dim": n})
             for k, v in vals.items():
@@ -679,21 +720,21 @@ def sqrtm_sym(C):
     return (V * np.sqrt(w)) @ V.T
 
 
-def oracle_gauss(ctx, key, desc, form, Mv, kind, n, mu, xa, istat, ival, documented_cov):
+def oracle_gauss(form, Mv, kind, n, mu, xa, istat, ival, documented_cov):
+    """implementation-only: scipy's multivariate normal with the covariance the documentation assigns"""
     if kind.startswith("bad") or istat != "value":
-        return
-    A = np.array(Mv, dtype=float)
+        return None
     if kind == "dense-nonsym" and form in ("cov", "prec"):
-        ctx.fail(key, desc, "refusal", ival, "a non-symmetric covariance/precision is accepted")
-        return
+        return ("refusal", ival, "a non-symmetric covariance/precision is accepted")
     try:
         C = documented_cov(form, Mv, kind, n)
         mean = np.broadcast_to(np.array(mu, dtype=float), (n,))
         ref = float(sps.multivariate_normal(mean, C, allow_singular=False).logpdf(xa))
     except Exception:
-        return
+        return None
     if not close(ref, ival, 1e-8):
-        ctx.fail(key, desc, ref, ival, "Gaussian.logpdf is not the documented density for this parameterisation")
+        return (ref, ival, "Gaussian.logpdf is not the documented density for this parameterisation")
+    return None
 
 
 def lognormal_section(ctx, D, rng, S):
@@ -724,16 +765,17 @@ def lognormal_section(ctx, D, rng, S):
         istat, ival = call(lambda: dist.logpdf(np.array(x)))
         t = out.split()
         mval = float("-inf") if t[0] == "-inf" else (dec(t[1]) if t[0] == "ok" else None)
-        if mval is None or istat != "value" or not close(mval, ival, TOL):
-            ctx.disagree(key, desc, out, [istat, ival], "Lognormal.logpdf: model and implementation differ")
+        tie_ok = not (mval is None or istat != "value" or not close(mval, ival, TOL))
         if min(x) <= 0:
             ref = float("-inf")
         else:
             A = np.array(Mv, dtype=float)
             C = np.diag(np.broadcast_to(A.ravel(), (n,))) if A.shape[0] == 1 else A
             ref = float(sps.multivariate_normal(np.array(mu), C).logpdf(np.log(x)) - np.sum(np.log(x)))
+        fail = None
         if istat != "value" or not close(ref, ival, ORTOL):
-            ctx.fail(key, desc, ref, ival, "Lognormal.logpdf is not log N(log x; mean, cov) - sum log x")
+            fail = (ref, ival, "Lognormal.logpdf is not log N(log x; mean, cov) - sum log x")
+        verdict(ctx, key, desc, tie_ok, out, [istat, ival], fail, "Lognormal.logpdf: model and implementation differ")
 
 
 def mrf_section(ctx, D, G, rng, S, thorough):
@@ -789,39 +831,54 @@ def mrf_section(ctx, D, G, rng, S, thorough):
         if fam == "gmrf":
             key = f"GMRF:{pd}D:order{order}:{bc}" + (":n<3" if n < 3 else "")
             decl, true_rank = int(t[1]), int(t[2])
+            mism = []
             if int(dist._rank) != decl:
-                ctx.disagree(key + ":declared-rank", desc, decl, int(dist._rank))
+                mism.append(f"declared rank {int(dist._rank)} vs model {decl}")
             with quiet():
                 Pi = dist._prec_op.get_matrix(); Pi = np.asarray(Pi.todense()) if spa.issparse(Pi) else np.asarray(Pi)
             quad = dec(t[4])
-            if not close(quad, float((xa - locb) @ (Pi @ (xa - locb))), 1e-10):
-                ctx.disagree(key + ":quadratic", desc, quad, "differs")
-            if t[5] != "-":
-                if istat != "value" or not close(dec(t[5]), ival, 1e-8):
-                    ctx.disagree(key + ":logpdf", desc, dec(t[5]), [istat, ival], "GMRF.logpdf: model and implementation differ")
-            # oracle: documented (possibly degenerate) Gaussian density of D(x-mean) with precision prec * D^T D
+            qi = float((xa - locb) @ (Pi @ (xa - locb)))
+            if not close(quad, qi, 1e-10):
+                mism.append(f"quadratic form of the structure matrix {qi} vs model {quad}")
+            if t[5] != "-" and (istat != "value" or not close(dec(t[5]), ival, 1e-8)):
+                mism.append(f"logpdf {[istat, ival]} vs model {dec(t[5])}")
+            # oracle 1 (independent of the constant): logpdf(x) - logpdf(mean) = -prec/2 (x-mean)^T D^T D (x-mean)
+            fail = None
+            with quiet():
+                s0, v0 = call(lambda: dist.logpdf(locb.copy()))
+            if istat == "value" and s0 == "value" and math.isfinite(v0) and math.isfinite(ival):
+                if not close(ival - v0, -0.5 * par * qi, 1e-8):
+                    fail = (-0.5 * par * qi, ival - v0, "GMRF.logpdf(x)-logpdf(mean) is not -prec/2 |D(x-mean)|^2: the shifted variable is not evaluated through the operator")
+            if fail:
+                verdict(ctx, key + ":quadratic", desc, not mism, out[:120], mism, fail, "GMRF: model and implementation differ: " + "; ".join(mism))
+                continue
+            # oracle 2: documented (possibly degenerate) Gaussian density with precision prec * D^T D
             ev = np.linalg.eigvalsh(Pi)
             pos = ev > 1e-9 * max(1.0, ev.max())
             r_true = int(pos.sum())
-            ref = 0.5 * (r_true * (math.log(par) - math.log(2 * math.pi)) + float(np.log(ev[pos]).sum())) - 0.5 * par * float((xa - locb) @ (Pi @ (xa - locb)))
+            ref = 0.5 * (r_true * (math.log(par) - math.log(2 * math.pi)) + float(np.log(ev[pos]).sum())) - 0.5 * par * qi
+            k2 = key + (":rank" if int(dist._rank) != r_true else ":logpdf")
             if istat != "value" or not close(ref, ival, 1e-7):
-                k2 = key + (":rank" if int(dist._rank) != r_true else ":logpdf")
-                ctx.fail(k2, desc, ref, ival, "GMRF.logpdf is not the documented density of the differences of the shifted variable (rank / log-determinant of its own precision)")
+                fail = (ref, ival, "GMRF.logpdf is not the documented density of the differences of the shifted variable (rank / log-determinant of its own precision)")
+            verdict(ctx, k2, desc, not mism, out[:120], mism, fail, "GMRF: model and implementation differ: " + "; ".join(mism))
         else:
             key = f"{fam.upper()}:{pd}D:{bc}:logpdf"
+            mism = []
             if istat != "value" or not close(dec(t[2]), ival, TOL):
-                ctx.disagree(key, desc, dec(t[2]), [istat, ival], f"{fam.upper()}.logpdf: model and implementation differ")
+                mism.append(f"logpdf {[istat, ival]} vs model {dec(t[2])}")
             with quiet():
                 Dm = dist._diff_op.get_matrix(); Dm = np.asarray(Dm.todense()) if spa.issparse(Dm) else np.asarray(Dm)
             u = Dm @ (xa - locb)
             if int(t[1]) != len(u):
-                ctx.disagree(key + ":rows", desc, t[1], len(u))
+                mism.append(f"number of differences {len(u)} vs model {t[1]}")
             if fam == "lmrf":
                 ref = float(sum(sps.laplace.logpdf(v, 0, par) for v in u))
             else:
                 ref = float(sum(sps.cauchy.logpdf(v, 0, par) for v in u))
+            fail = None
             if istat != "value" or not close(ref, ival, ORTOL):
-                ctx.fail(key, desc, ref, ival, f"{fam.upper()}.logpdf is not the sum of the documented densities of the differences D(x-location)")
+                fail = (ref, ival, f"{fam.upper()}.logpdf is not the sum of the documented densities of the differences D(x-location)")
+            verdict(ctx, key, desc, not mism, out[:120], mism, fail, f"{fam.upper()}: model and implementation differ: " + "; ".join(mism))
 
 
 def quadrature_section(ctx, D, G, rng, S):
